@@ -49,8 +49,12 @@ func (g *G) Weighted(ws []int, label string) int {
 // siblings that sort between `d` and `d/` ('-' 0x2d, '.' 0x2e < '/' 0x2f < '0');
 // names that are prefixes / substrings of each other; regexp metacharacters.
 var (
-	bases    = []string{"a", "b", "d", "ad", "lib", "test", "x", "é", "Z"}
-	suffixes = []string{"", "", "", ".go", ".c", "-old", "-data", "0", "1", " b", "(1)", "(", "+", "_", ".", "[", "ü", " ", "-", "+x", ".txt"}
+	bases    = []string{"a", "b", "d", "ad", "lib", "test", "x", "é", "Z", "build"}
+	suffixes = []string{"", "", "", ".go", ".c", "-old", "-data", "0", "1", " b", "(1)", "(", "+", "_", ".", "[", "ü", " ", "-", "+x", ".txt", ".log", ".tmp"}
+	// IgnoreDirs / IgnoreExts are what a generated .goitignore may contain. Extensions are never
+	// used in directory names, so "ignored" is unambiguous in the generated domain.
+	IgnoreDirs = []string{"build", "lib-old", "test.c"}
+	IgnoreExts = []string{".log", ".tmp"}
 )
 
 // openNameExclusions: characters excluded from names while a finding is open.
@@ -83,6 +87,42 @@ func (g *G) Component() string {
 			return c
 		}
 	}
+}
+
+// DirComponent is a component usable as a directory name: no ignorable extension.
+func (g *G) DirComponent() string {
+	for i := 0; i < 50; i++ {
+		c := g.Component()
+		ok := true
+		for _, e := range IgnoreExts {
+			if strings.Contains(c, e) {
+				ok = false
+			}
+		}
+		if ok {
+			return c
+		}
+	}
+	return "d"
+}
+
+// IgnoreFile draws the content of a .goitignore made of "name/" and "*.ext" entries.
+func (g *G) IgnoreFile() []byte {
+	var lines []string
+	for _, d := range IgnoreDirs {
+		if g.Chance(50, "ignDir") {
+			lines = append(lines, d+"/")
+		}
+	}
+	for _, e := range IgnoreExts {
+		if g.Chance(50, "ignExt") {
+			lines = append(lines, "*"+e)
+		}
+	}
+	if len(lines) == 0 {
+		lines = []string{"build/"}
+	}
+	return []byte(strings.Join(lines, "\n") + "\n")
 }
 
 // conflicts reports whether path p cannot coexist with q (one is a directory prefix of the other).
@@ -149,9 +189,9 @@ func (g *G) NewPath() string {
 		}
 		for depth < 3 && g.Chance(30, "deeper") {
 			if dir == "" {
-				dir = g.Component()
+				dir = g.DirComponent()
 			} else {
-				dir = dir + "/" + g.Component()
+				dir = dir + "/" + g.DirComponent()
 			}
 			depth++
 		}
